@@ -260,6 +260,20 @@ def part_mixed(ctx):
                                            lit(k), restate, cmd, j))
             segs.append((mode, tuple(vals3) + (k, d), cmd))
         text = ' '.join(parts)
+        reps = 1
+        if rng.random() < 0.3 and segs[0][0] == segs[-1][0] or \
+                rng.random() < 0.15:
+            # the whole sequence twice, as the body of a loop: on the second
+            # pass every `units` command finds another mode in force than the
+            # one written before it
+            reps = 2
+            text = rng.choice(['repeat 2 begin {} end',
+                               'define zz_seq begin {} end zz_seq zz_seq',
+                               'repeat with zz_i from 1 to 2 begin {} end']
+                              ).format(text)
+            ctx.count('mixed_scripts_repeated')
+            if 'duration' not in parts[0]:
+                reps = 1      # (cannot happen: the first segment states it)
         r = run_script(text)
         replay = {'part': 'mixed', 'script': text,
                   'segments': [[m, [float(x) for x in v], c]
@@ -278,8 +292,9 @@ def part_mixed(ctx):
         for e in r.log:
             if e[0] in ('dev', 'lan'):
                 cur.append(e)
-            elif e[0] == 'out' and e[1] == 'out' and e[2] == j:
-                mode, vals, cmd = segs[j]
+            elif e[0] == 'out' and e[1] == 'out' and \
+                    j < reps * len(segs) and e[2] == j % len(segs):
+                mode, vals, cmd = segs[j % len(segs)]
                 if not cur:
                     ctx.violation('mixed:nothing-sent', 'segment {} ({}) sent '
                                   'nothing | {}'.format(j, cmd, text[:300]),
